@@ -71,6 +71,8 @@ def modelled : List String := [
   "ff.reduce@element_ops_noasm.go",
   "ff.sub@element_ops_amd64.go",
   "ff.sub@element_ops_noasm.go",
+  "tree.<layout>@ff",
+  "tree.<layout>@root",
   "ff.<asm>@element_mul_adx_amd64.s",
   "ff.<asm>@element_mul_amd64.s",
   "ff.<asm>@element_ops_amd64.s",
@@ -91,6 +93,6 @@ theorem source_pinned : modelled.all (same I3.Gen.fingerprints) = true := by dec
 theorem function_set_pinned : (["ff."] : List String).all (sameKeys I3.Gen.fingerprints) = true := by
   decide +kernel
 
-theorem modelled_nonempty : 75 = modelled.length := by decide
+theorem modelled_nonempty : 77 = modelled.length := by decide
 
 end I3.Props.C05
